@@ -15,19 +15,21 @@ titles = {}
 for ln in open(os.path.join(V, "properties.jsonl")):
     p = json.loads(ln)
     titles[p["id"]] = p["title"]
-rows = ["| id | claimed | functions under contract | obligations (discharged/generated) | cover queries | trusted contracts | known findings | quick solve time |",
-        "|---|---|---|---|---|---|---|---|"]
+rows = ["| id | claimed | functions under contract | obligations (discharged/generated) | cover queries | trusted contracts | bounded stand-ins (not proof): cases | known findings | quick solve time |",
+        "|---|---|---|---|---|---|---|---|---|"]
 for pid in sorted(titles):
     f = os.path.join(V, "evidence", pid + ".json")
     if pid not in claimed or not os.path.exists(f):
-        rows.append(f"| {pid} | no | – | – | – | – | – | – |")
+        rows.append(f"| {pid} | no | – | – | – | – | – | – | – |")
         continue
     e = json.load(open(f))
     c = e["coverage"]
     fns = [x for x in c.get("functions_under_contract", []) if not x.startswith("lemma:")]
     lem = [x for x in c.get("functions_under_contract", []) if x.startswith("lemma:")]
     trusted = [a for a in e.get("assumptions", []) if a.startswith("trusted (unverified)")]
-    rows.append("| %s | yes | %d%s | %s/%s | %s | %d | %s | %.0f s |" % (
+    bnd = c.get("bounded") or []
+    btxt = ", ".join("%s: %s" % (b["name"], "{:,}".format(b["cases"])) for b in bnd) or "–"
+    rows.append("| %s | yes | %d%s | %s/%s | %s | %d | %s | %s | %.0f s |" % (
         pid, len(fns), (" + %d lemmas" % len(lem)) if lem else "", c.get("discharged"), c.get("obligations"),
-        c.get("cover_queries_sat"), len(trusted), ", ".join("`%s`" % k for k in known.get(pid, [])) or "–", c.get("solve_wall_s", 0)))
+        c.get("cover_queries_sat"), len(trusted), btxt, ", ".join("`%s`" % k for k in known.get(pid, [])) or "–", c.get("solve_wall_s", 0)))
 print("\n".join(rows))
